@@ -638,7 +638,7 @@ def _c10_hook(tier, seed):
     # (5)
     try:
         rng = random.Random(seed + 12)
-        e2e = gen_cases(rng, 6 if quick else 1500)
+        e2e = gen_cases(rng, 10 if quick else 1500)
         n_ev = nbad = 0
         for case in e2e:
             try:
